@@ -151,13 +151,14 @@ def inertAux : Nat → Option UInt8 → Bytes → Bool
   | 0, _, _ => true
   | _, _, [] => true
   | fuel + 1, prev, s@(c :: cs) =>
-    if c == 92 || c == 60 || c == 62 || c == 64 then false
+    if c == 92 || c == 60 || c == 62 || c == 64 || c == 59 || c == 123 || c == 125 then false
     else if hasPrefix b!"expression(" s then false
     else if urlStartPos prev && (hasPrefix b!"javascript:" s || hasPrefix b!"data:" s) then false
     else if hasPrefix b!"url(" s then plainHttpUrlStart (s.drop 4) && inertAux fuel (some c) cs
     else inertAux fuel (some c) cs
 
-/-- no backslash, angle bracket or at-sign; no `expression(`; no `javascript:` / `data:`
+/-- no backslash, angle bracket or at-sign, no semicolon or brace (a value cannot end the declaration
+    or the block it is written into); no `expression(`; no `javascript:` / `data:`
     reference; every `url(` opens a plain http/https reference -/
 def inert (v : Bytes) : Bool := inertAux (v.length + 1) none v
 
